@@ -172,7 +172,9 @@ def build_target(spec, values):
         joint._c15 = {"coal": coal, "gmrf": gmrf, "heights": heights}
         return [field, tau], joint
     if kind == "quad":
-        ps = [Parameter(f"q{i}", T(v)) for i, v in enumerate(values)]
+        # identity vs naming: anonymous / duplicate ids must make no difference to any operator
+        scheme = spec.get("ids", "distinct")
+        ps = [Parameter({"anonymous": None, "duplicate": "q"}.get(scheme, f"q{i}"), T(v)) for i, v in enumerate(values)]
         return ps, make_quad(torch)(ps, T(spec["G"]), T(spec["b"]), spec.get("lo", -math.inf), spec.get("hi", math.inf))
     raise ValueError(kind)
 
@@ -1696,7 +1698,8 @@ def gen_cfg(rng, family, adapt, iterations):
         init, s = [], 0
         for sz in sizes:
             init.append([rng.randint(-8, 8) / 4 for _ in range(sz)])
-        t = {"kind": "quad", "G": G, "b": [float(rng.randint(-2, 2)) for _ in range(n)], "init": init}
+        t = {"kind": "quad", "G": G, "b": [float(rng.randint(-2, 2)) for _ in range(n)], "init": init,
+             "ids": rng.choice(["distinct", "anonymous", "duplicate"])}
         # HMC on all parameters, or only on the first one while sliding windows move the other (which enters
         # HMC's gradient through the coupling in G)
         hmc_pidx = [0] if (len(sizes) > 1 and family == "quad" and rng.random() < 0.6) else list(range(len(sizes)))
